@@ -64,7 +64,29 @@ def _gen_env_val(rng, key):
         return rng.choice(TRUE_SPELL)
     if r < 0.84:
         return rng.choice(FALSE_SPELL)
-    return rng.choice(GARBAGE)
+    return gen_garbage(rng)
+
+
+def gen_garbage(rng):
+    """Strings that strict true/false/1/0 parsing (any letter case) must reject: fixed examples
+    plus systematic near-misses of the accepted spellings.  yes/no/on/off are never produced."""
+    k = rng.randrange(8)
+    base = rng.choice(["true", "false", "1", "0", "True", "FALSE"])
+    if k == 0:
+        return rng.choice(GARBAGE)
+    if k == 1:
+        return rng.choice([" ", "\t", "\n"]) + base if rng.random() < 0.5 else base + rng.choice([" ", "\t", "\n", "\r"])
+    if k == 2:
+        return rng.choice(["01", "00", "10", "11", "001", "+1", "+0", "-0", "1_0", "0_1", "1.0", "0.0", "1e0", "0x1", "0b1", "１", "０"])
+    if k == 3:
+        return base[: max(1, len(base) - 1)] if len(base) > 1 else base + base
+    if k == 4:
+        return base + rng.choice(["e", "!", "1", "0", ".", ";", "="])
+    if k == 5:
+        return rng.choice(["3", "7", "-1", "2", "9"])
+    if k == 6:
+        return rng.choice(["null", "none", "None", "nil", "enable", "disabled", "truthy", "fals", "tr ue", "t", "f", "y", "n"])
+    return rng.choice(['"true"', "'1'", "[1]", "true,false", "TRUE TRUE"])
 
 
 def generate(rng, tier, index):
